@@ -70,6 +70,30 @@ type evLine struct {
 	GVer  []int        `json:"gver"`
 }
 
+type resetLine struct {
+	K     string `json:"k"`
+	H     int    `json:"h"`
+	N     int    `json:"n"`
+	Cap   int    `json:"cap"`
+	Tag   string `json:"tag"`
+	Scene []int  `json:"scene"`
+	SVer  []int  `json:"sver"`
+	GVer  []int  `json:"gver"`
+}
+
+type bumpLine struct {
+	K    string `json:"k"`
+	H    int    `json:"h"`
+	GVer []int  `json:"gver"`
+}
+
+type endLine struct {
+	K    string `json:"k"`
+	H    int    `json:"h"`
+	Dead bool   `json:"dead"`
+	Hang bool   `json:"hang"`
+}
+
 // DecProj is what the real decoders make of a frame.
 type DecProj struct {
 	Res  string    `json:"res"` // ok | PANIC | none
@@ -113,7 +137,7 @@ type runner struct {
 	clients map[int]*room.Client
 	num     map[*room.Client]int
 	prevCl  map[int]string
-	prevPl  map[string]string // id -> serialised projection
+	prevPl  map[string]string // id -> playerKey
 	t0      time.Time
 	tLast   time.Time
 	lines   []any
@@ -195,8 +219,8 @@ func newRunner(h int, c Case) *runner {
 
 func (r *runner) start() {
 	st := r.hub.VerifState()
-	r.lines = append(r.lines, map[string]any{"k": "reset", "h": r.h, "n": r.c.N, "cap": r.c.Cap, "tag": r.c.Tag,
-		"scene": SceneProj(st.WebScene), "sver": le32(st.ModelVersion), "gver": le32(r.inst.ModelVersion())})
+	r.lines = append(r.lines, resetLine{K: "reset", H: r.h, N: r.c.N, Cap: r.c.Cap, Tag: r.c.Tag,
+		Scene: SceneProj(st.WebScene), SVer: le32(st.ModelVersion), GVer: le32(r.inst.ModelVersion())})
 	r.abort = make(chan struct{})
 	r.stop = make(chan struct{})
 	r.t0 = time.Now()
@@ -247,14 +271,14 @@ func (r *runner) observe(ln *evLine) {
 	sort.Ints(ln.CDel)
 	r.prevCl = cur
 	curPl := map[string]string{}
-	for _, pp := range PlayersProj(st.Players) {
-		b, _ := json.Marshal(pp)
-		id := string(bytesOf(pp.ID))
-		curPl[id] = string(b)
-		if old, ok := r.prevPl[id]; !ok || old != string(b) {
-			ln.PAdd = append(ln.PAdd, pp)
+	for id, p := range st.Players {
+		key := playerKey(p)
+		curPl[id] = key
+		if old, ok := r.prevPl[id]; !ok || old != key {
+			ln.PAdd = append(ln.PAdd, PlayersProj(map[string]*room.Player{id: p})[0])
 		}
 	}
+	sort.Slice(ln.PAdd, func(i, j int) bool { return lessInts(ln.PAdd[i].ID, ln.PAdd[j].ID) })
 	for id := range r.prevPl {
 		if _, ok := curPl[id]; !ok {
 			ln.PDel = append(ln.PDel, ints([]byte(id)))
@@ -265,6 +289,21 @@ func (r *runner) observe(ln *evLine) {
 	ln.QL = r.qlens()
 	ln.Scene = SceneProj(st.WebScene)
 	ln.SVer = le32(st.ModelVersion)
+}
+
+// playerKey: an injective rendering of one player, only used to find out which entries changed between two observations.
+func playerKey(p *room.Player) string {
+	if p == nil {
+		return "nil"
+	}
+	var b strings.Builder
+	fmt.Fprintf(&b, "%d:%s:%d:", len(p.Name), p.Name, len(p.Representation))
+	for _, o := range p.Representation {
+		for _, v := range ObjProj(o) {
+			b.WriteByte(byte(v))
+		}
+	}
+	return b.String()
 }
 
 func (r *runner) qlens() []int {
@@ -375,7 +414,7 @@ func (r *runner) recv(c int, fin bool) (more bool) {
 		ln.Res = "empty"
 	}
 	r.lines = append(r.lines, ln)
-	if !r.hang.Load() {
+	if !fin && !r.hang.Load() {
 		r.tLast = time.Now()
 	}
 	return more
@@ -391,7 +430,7 @@ func (r *runner) run() (valid bool) {
 			// environment: the graph's model version moves (the loop reads it on its next tick; the
 			// push that delivers that tick orders this write before the read)
 			_ = r.inst.ApplyAppSchema([]byte(`{"producers":{},"nodes":{}}`))
-			r.lines = append(r.lines, map[string]any{"k": "bump", "h": r.h, "gver": le32(r.inst.ModelVersion())})
+			r.lines = append(r.lines, bumpLine{K: "bump", H: r.h, GVer: le32(r.inst.ModelVersion())})
 		default:
 			if r.dead.Load() || r.hang.Load() {
 				continue
@@ -399,7 +438,16 @@ func (r *runner) run() (valid bool) {
 			r.hubEvent(i+1, e)
 		}
 	}
-	if !r.hang.Load() { // a stuck loop would be released by draining: leave it alone
+	// retire the hub before the drain: its loop parks for good on a client nobody reads from, so that neither
+	// the drain nor the 200 ms ticker can move it any more (a stuck loop is left alone: draining would release it)
+	if !r.dead.Load() && !r.hang.Load() {
+		close(r.stop)
+		park := room.VerifNewClient(r.hub, 0)
+		if r.hub.VerifPush(room.VerifEvent{Kind: room.VerifRegister, Client: park}, r.abort) {
+			r.tLast = time.Now()
+		}
+	}
+	if !r.hang.Load() {
 		ns := make([]int, 0, len(r.clients))
 		for n := range r.clients {
 			ns = append(ns, n)
@@ -410,15 +458,8 @@ func (r *runner) run() (valid bool) {
 			}
 		}
 	}
-	r.lines = append(r.lines, map[string]any{"k": "end", "h": r.h, "dead": r.dead.Load(), "hang": r.hang.Load()})
-	valid = r.tLast.Sub(r.t0) < tickGuard
-	// retire the hub: park its loop for good on a client nobody reads from
-	if !r.dead.Load() && !r.hang.Load() {
-		close(r.stop)
-		park := room.VerifNewClient(r.hub, 0)
-		r.hub.VerifPush(room.VerifEvent{Kind: room.VerifRegister, Client: park}, r.abort)
-	}
-	return valid
+	r.lines = append(r.lines, endLine{K: "end", H: r.h, Dead: r.dead.Load(), Hang: r.hang.Load()})
+	return r.tLast.Sub(r.t0) < tickGuard
 }
 
 func runHub(h int, c Case) ([]any, error) {
